@@ -13,6 +13,8 @@
                (the code returned x | [...], which can miss members of *this)
      9. mk_winterval(lb, ub, width) : top when ub - lb >= 2^width - 1
                (the code reduced the bounds modulo 2^width independently)
+    10. Trunc(k) : k >= bitwidth returns *this (the code went on to ashr(k): a shift of an
+               uint64_t by 64 bits at bitwidth 64, so did Shl(0), which calls Trunc(bitwidth))
 
    Conventions.
    - top is the interval [0,7] of bitwidth 3 (whatever the bitwidth of the other operand);
@@ -332,11 +334,13 @@ Definition wi_zext (i : witv) (bits_to_add : Z) : option witv :=
 Definition wi_sext (i : witv) (bits_to_add : Z) : option witv :=
   do l <- signed_split i; ext_pieces wsext bits_to_add l wi_bottom.
 
-(* Trunc *)
+(* Trunc (repaired for bits_to_keep >= bitwidth) *)
 Definition wi_trunc (i : witv) (bits_to_keep : Z) : option witv :=
   if is_bottom i || is_top i then Some i
   else
     let w := get_bitwidth (wstart i) in
+    if w <=? bits_to_keep then Some i   (* repaired: nothing is cut off *)
+    else
     let k := wmk bits_to_keep w in
     do us <- washr (wstart i) k;
     do ue <- washr (wend i) k;
